@@ -23,8 +23,8 @@ MAX_HASHES = 3_000_000
 TIERS = {
     # property: (quick runs, chunk)
     "C01": {"quick_runs": 6000, "chunk": 100},
-    "C05": {"quick_runs": 4000, "chunk": 50},
-    "C10": {"quick_runs": 3000, "chunk": 50},
+    "C05": {"quick_runs": 2400, "chunk": 50},
+    "C10": {"quick_runs": 4000, "chunk": 50},
     "C16": {"quick_runs": 4000, "chunk": 50},
 }
 
